@@ -703,6 +703,23 @@ func (rn *runner) evalBatch(b *Batch, withAlone bool, sched []int) ([]finding, *
 			}
 		}
 	}
+	// the shared root is one and the same directory for every script of the batch: it is not removed
+	// (and made again by the next MkdirAll) while scripts are still to run
+	{
+		var first uint64
+		who := ""
+		for _, o := range ro.res.Scripts {
+			if o.RootIno == 0 {
+				continue
+			}
+			if first == 0 {
+				first, who = o.RootIno, o.Name
+			} else if o.RootIno != first {
+				add("impl-violation", "root/recreated", fmt.Sprintf("the temporary root seen by script %s (inode %d) is not the directory script %s saw (inode %d): it was removed and made again while the batch was running", o.Name, o.RootIno, who, first), "", "")
+				break
+			}
+		}
+	}
 	canon := make([]string, len(b.Scripts))
 	for i, o := range ro.res.Scripts {
 		ft, present := ro.finalTree[o.Name]
@@ -1149,6 +1166,13 @@ func (rn *runner) mainC04() {
 		hb.ContinueOnError = k%2 == 1
 		addB(hb, "hand")
 	}
+	// the same scripts under a T that runs the subtests one after the other
+	sq := exitPathsBatch()
+	sq.SeqT, sq.NonRoot = true, rn.nonRoot
+	addB(sq, "hand-sequential-T")
+	sq2 := escapeBatch()
+	sq2.SeqT = true
+	addB(sq2, "hand-sequential-T")
 	// 3. generated batches, each run free under three settings of GOMAXPROCS / parallelism / delays
 	//    and gated under two schedules (one random, one script after the other in reverse order)
 	r := common.NewRNG(f.Seed)
@@ -1191,6 +1215,12 @@ func (rn *runner) mainC04() {
 			}
 		}
 		addG(g, "gated-sequential", seq)
+		if i%3 == 0 {
+			q := b
+			q.Scripts = append([]Script{}, b.Scripts...)
+			q.SeqT = true
+			addB(q, "generated-sequential-T")
+		}
 	}
 	workers := 5
 	var wg sync.WaitGroup
@@ -1290,5 +1320,11 @@ func exitPathsBatch() Batch {
 	}
 	bd := common("baddefer", Action{Op: "D", ID: 3, Flag: true}, Action{Op: "D", ID: 4})
 	b.Scripts = append(b.Scripts, bd)
+	// a bare wait that fails on the first command (it has exited with status 1) while the second one
+	// is still running: the end of run() has to interrupt and wait for the second one all the same
+	b.Scripts = append(b.Scripts, Script{Name: "waitfail", Files: []File{{Path: "a.txt", Data: "x\n"}},
+		Body: []Action{{Op: "D", ID: 1}, {Op: "G", ID: 100}, {Op: "G", ID: 1}, {Op: "U"}, {Op: "O"}}})
+	b.Scripts = append(b.Scripts, Script{Name: "waitok", Files: []File{{Path: "a.txt", Data: "x\n"}},
+		Body: []Action{{Op: "G", ID: 100, Flag: true}, {Op: "G", ID: 101, Flag: true}, {Op: "U"}, {Op: "O"}}})
 	return b
 }
